@@ -158,11 +158,19 @@ theorem copyInto_ok_inv {dst src r : Array α} {site : String} (h : copyInto dst
     simp only [bne_iff_ne, ne_eq, Decidable.not_not] at hne
     exact ⟨hne, rfl⟩
 
+/-- `variables.x.fill(0); variables.s.fill(0); variables.z.fill(0)` at the top of
+`solve_initial_point` (since /repo 7c1c881; before that commit a failed solve left the previous
+content of the three vectors — possibly the last iterate of an earlier `solve()` — in place) -/
+def zeroFilled (vars : Vars α) : Vars α :=
+  { vars with x := vars.x.map (fun _ => (0 : α)), s := vars.s.map (fun _ => (0 : α)),
+              z := vars.z.map (fun _ => (0 : α)) }
+
 /-- [S] **LP branch of `solve_initial_point`** (`data.P.nnz() == 0`), every way through it.  The
 first reduced solve receives the right-hand side `[0; b]`; on success its `x` part becomes
-`variables.x` and its `z` part, NEGATED, `variables.s`; on failure `variables.x` keeps its old
-content, `variables.s` is negated all the same, and the function returns `false`.  The second
-solve receives `[−q; 0]`; only its `z` part is used (`variables.z`); its flag is returned. -/
+`variables.x` and its `z` part, NEGATED, `variables.s`; on failure `variables.x` stays zero-filled,
+`variables.s` is the negated zero fill (`−0.0` entries at `Float`), and the function returns
+`false`.  The second solve receives `[−q; 0]`; only its `z` part is used (`variables.z`, zero-filled
+on failure); its flag is returned.  The incoming content of `x, s, z` is never read. -/
 theorem solveInitialPoint_lp_inv {S : KktSys α} {vars : Vars α} {data : ProblemData α}
     {st : LinSettings α} {ok : Bool} {v' : Vars α} {S' : KktSys α} (hP : (data.P.nnz == 0) = true)
     (h : S.solveInitialPoint vars data st = .ok (ok, v', S')) :
@@ -170,7 +178,8 @@ theorem solveInitialPoint_lp_inv {S : KktSys α} {vars : Vars α} {data : Proble
       S.workz.size = data.b.size ∧
       S.kktsolver.setrhs (S.workx.map (fun _ => (0 : α))) data.b = .ok K0 ∧
       K0.solve st = .ok (ok1, lx1, lz1, K1) ∧
-      ((ok1 = false ∧ ok = false ∧ v' = { vars with s := Vec.negate vars.s }) ∨
+      ((ok1 = false ∧ ok = false ∧
+          v' = { zeroFilled vars with s := Vec.negate (zeroFilled vars).s }) ∨
        (ok1 = true ∧ vars.x.size = lx1.size ∧ vars.s.size = lz1.size ∧
         ∃ K2 ok2 lx2 lz2 K3,
           K1.setrhs (Vec.scalaropFrom (S.workx.map (fun _ => (0 : α))) (fun q => -q) data.q)
@@ -178,7 +187,7 @@ theorem solveInitialPoint_lp_inv {S : KktSys α} {vars : Vars α} {data : Proble
           K2.solve st = .ok (ok2, lx2, lz2, K3) ∧ ok = ok2 ∧
           ((ok2 = true ∧ vars.z.size = lz2.size ∧
               v' = { vars with x := lx1, s := Vec.negate lz1, z := lz2 }) ∨
-           (ok2 = false ∧ v' = { vars with x := lx1, s := Vec.negate lz1 })))) := by
+           (ok2 = false ∧ v' = { zeroFilled vars with x := lx1, s := Vec.negate lz1 })))) := by
   unfold KktSys.solveInitialPoint at h
   rw [if_pos hP] at h
   obtain ⟨workz, hwz, h⟩ := bind_ok_inv h
@@ -208,6 +217,7 @@ theorem solveInitialPoint_lp_inv {S : KktSys α} {vars : Vars α} {data : Proble
     obtain ⟨K2, hK2, h⟩ := bind_ok_inv h
     obtain ⟨⟨ok2, lx2, lz2, K3⟩, hs2, h⟩ := bind_ok_inv h
     dsimp only at h
+    rw [Array.size_map] at sx1 ss1
     refine ⟨rfl, sx1, ss1, K2, ok2, lx2, lz2, K3, hK2, hs2, ?_⟩
     cases ok2 with
     | false =>
@@ -219,12 +229,14 @@ theorem solveInitialPoint_lp_inv {S : KktSys α} {vars : Vars α} {data : Proble
       obtain ⟨z, hz, h⟩ := bind_ok_inv h
       obtain ⟨sz1, sz2⟩ := copyInto_ok_inv hz
       subst z
+      rw [Array.size_map] at sz1
       simp only [pure, Except.pure, Except.ok.injEq, Prod.mk.injEq] at h
       exact ⟨h.1.symm, Or.inl ⟨rfl, sz1, h.2.1.symm⟩⟩
 
 /-- [S] **QP branch of `solve_initial_point`** (`data.P.nnz() ≠ 0`): one reduced solve with the
 right-hand side `[−q; b]`; on success its parts become `variables.x` and `variables.z`; in either
-case `variables.s = −variables.z` afterwards and the solver's flag is returned. -/
+case `variables.s = −variables.z` afterwards (on failure: the zero fill and its negation) and the
+solver's flag is returned. -/
 theorem solveInitialPoint_qp_inv {S : KktSys α} {vars : Vars α} {data : ProblemData α}
     {st : LinSettings α} {ok : Bool} {v' : Vars α} {S' : KktSys α} (hP : (data.P.nnz == 0) = false)
     (h : S.solveInitialPoint vars data st = .ok (ok, v', S')) :
@@ -234,7 +246,7 @@ theorem solveInitialPoint_qp_inv {S : KktSys α} {vars : Vars α} {data : Proble
       K0.solve st = .ok (ok, lx, lz, K1) ∧
       ((ok = true ∧ vars.x.size = lx.size ∧ vars.z.size = lz.size ∧ vars.s.size = lz.size ∧
           v' = { vars with x := lx, z := lz, s := Vec.negate lz }) ∨
-       (ok = false ∧ v' = { vars with s := Vec.negate vars.z })) := by
+       (ok = false ∧ v' = { zeroFilled vars with s := Vec.negate (zeroFilled vars).z })) := by
   unfold KktSys.solveInitialPoint at h
   rw [if_neg (by rw [hP]; exact Bool.false_ne_true)] at h
   split at h
@@ -270,6 +282,7 @@ theorem solveInitialPoint_qp_inv {S : KktSys α} {vars : Vars α} {data : Proble
       · cases h
       · rename_i hss
         simp only [bne_iff_ne, ne_eq, Decidable.not_not] at hss
+        rw [Array.size_map] at sx1 sz1 hss
         simp only [pure, Except.pure, Except.ok.injEq, Prod.mk.injEq] at h
         obtain ⟨h1, h2, _⟩ := h
         subst h1
@@ -446,21 +459,42 @@ theorem symmetricInitialization_inv {v v' : Vars α} {cones : List (ConeSt α)}
   cases h
   exact ⟨rfl, rfl, rfl, hs, hz⟩
 
+/-- [S] `kktsystem.update` keeps the length of `workx` -/
+theorem update_workx_size {S S' : KktSys α} {data : ProblemData α} {cones : List (ConeSt α)}
+    {st : LinSettings α} {ok : Bool} (h : S.update data cones st = .ok (ok, S')) :
+    S'.workx.size = S.workx.size := by
+  unfold KktSys.update at h
+  obtain ⟨⟨ok1, K⟩, hK, h⟩ := bind_ok_inv h
+  dsimp only at h
+  split at h
+  · cases h; rfl
+  · unfold KktSys.solveConstantRhs at h
+    dsimp only at h
+    obtain ⟨K1, hK1, h⟩ := bind_ok_inv h
+    obtain ⟨⟨ok2, lx, lz, K2⟩, hs, h⟩ := bind_ok_inv h
+    dsimp only at h
+    split at h
+    · obtain ⟨x2, hx2, h⟩ := bind_ok_inv h
+      obtain ⟨z2, hz2, h⟩ := bind_ok_inv h
+      cases h
+      exact Solver.scalaropFrom_size _ _ _
+    · cases h
+      exact Solver.scalaropFrom_size _ _ _
+
 end start
 
 /-- [R] **the starting point of a conic LP** (`P` without stored entry), on exact reduced solves:
 `default_start()` returns `τ = κ = 1`, the `x` of the primal least-squares problem, and `(s, z)` =
 the least-squares `s` and `z` shifted into the cone — strictly inside it (C07's
 `symmetricInitialization_interior`).  `kk1` is the KKT system after `kktsystem.update` with the
-identity scaling; the exactness hypotheses `hex1`, `hex2` are those of
-`solveInitialPoint_lp_exact` for it, `hsucc` says both solves reported success. -/
+identity scaling; `hkk` gives for it the two exactness hypotheses of `solveInitialPoint_lp_exact`
+and that both solves reported success. -/
 theorem defaultStart_lp_exact {n m : ℕ} (A : Matrix (Fin m) (Fin n) ℝ) (d : Fin m → ℝ)
     (hd : ∀ i, 0 ≤ d i) {S S0 : SolverSt ℝ} {st : Settings ℝ}
     (hP : (S.data.P.nnz == 0) = true) (hq : S.data.q.size = n) (hb : S.data.b.size = m)
-    (hc : ConesOk S.cones) (hnum : numelAll S.cones = m)
+    (hwx0 : S.kktsystem.workx.size = n) (hc : ConesOk S.cones) (hnum : numelAll S.cones = m)
     (hkk : ∀ ok1 kk1, S.kktsystem.update S.data (setIdentityScaling S.cones) st.lin = .ok (ok1, kk1) →
-      kk1.workx.size = n
-      ∧ (∀ K0 lx lz K1, kk1.kktsolver.setrhs (kk1.workx.map (fun _ => (0 : ℝ))) S.data.b = .ok K0 →
+      (∀ K0 lx lz K1, kk1.kktsolver.setrhs (kk1.workx.map (fun _ => (0 : ℝ))) S.data.b = .ok K0 →
           K0.solve st.lin = .ok (true, lx, lz, K1) →
           ReducedExact (0 : Matrix (Fin n) (Fin n) ℝ) A (diagonal d)
             (kk1.workx.map (fun _ => (0 : ℝ))) S.data.b lx lz)
@@ -490,7 +524,8 @@ theorem defaultStart_lp_exact {n m : ℕ} (A : Matrix (Fin m) (Fin n) ℝ) (d : 
       ∧ Composite.shiftToConeInterior (S0.cones.map ConeSt.compSpec) z false = .ok S0.variables.z
       ∧ Interior (S0.cones.map ConeSt.compSpec) S0.variables := by
   obtain ⟨ok1, kk1, ok2, v, kk2, hu, hi, hsy, hcs, _, _⟩ := defaultStart_inv h
-  obtain ⟨hwx, hex1, hex2, hsucc⟩ := hkk ok1 kk1 hu
+  obtain ⟨hex1, hex2, hsucc⟩ := hkk ok1 kk1 hu
+  have hwx : kk1.workx.size = n := by rw [update_workx_size hu]; exact hwx0
   have hok := hsucc ok2 v kk2 hi
   subst hok
   obtain ⟨sx, ss, sz, _, _, p1, p2, d1, d2, po, dopt⟩ :=
